@@ -1,4 +1,4 @@
-import LunarVerif.Proofs.C05
+import LunarVerif.Proofs.C05Tight
 /-!
 C05, part 2: from one walk to whole transactions, and from the loader's verdict to the judge predicate.
 -/
@@ -38,17 +38,17 @@ theorem dfsFrom_root {d : Dir} {g : DirGraph} (hv : validateDirection d g = .ok 
     exact absurd hn (by simp)
 
 theorem walk_root_ok (f : Flow) (o : Oracle) (d : Dir) (hv : validateDirection d (f.dir d) = .ok ())
-    {r : String} (hr : (f.dir d).root = some r) (fuel : Nat) (hf : dfsFuel (f.dir d) + 1 ≤ fuel) :
+    {r : String} (hr : (f.dir d).root = some r) (fuel : Nat) (hf : depthOf (f.dir d) ≤ fuel) :
     WOk (dirBound (f.dir d)) (walk f o d fuel r) :=
-  walk_of_dfsFrom f o d r (fun _ hn => dfsFrom_root hv hr hn) fuel hf
+  walk_of_bounded f o d r _ (bounded_of_dfsFrom (f.dir d) r (fun _ hn => dfsFrom_root hv hr hn)) fuel hf
 
 theorem walk_any_ok (f : Flow) (o : Oracle) (d : Dir) (hs : noCycleAnywhere (f.dir d) = true)
-    (k : String) (fuel : Nat) (hf : dfsFuel (f.dir d) + 1 ≤ fuel) :
+    (k : String) (fuel : Nat) (hf : depthOf (f.dir d) ≤ fuel) :
     WOk (dirBound (f.dir d)) (walk f o d fuel k) :=
-  walk_of_dfsFrom f o d k (fun n hn => by
+  walk_of_bounded f o d k _ (bounded_of_dfsFrom (f.dir d) k (fun n hn => by
     unfold noCycleAnywhere at hs
     rw [List.all_eq_true] at hs
-    exact hs n (find_mem hn)) fuel hf
+    exact hs n (find_mem hn))) fuel hf
 
 theorem wok_enter {b : Nat} {w : WalkRes} (h : WOk b w) (fl : String) (d : Dir) :
     WOk b { w with trace := Event.enter fl d :: w.trace } :=
@@ -62,7 +62,7 @@ theorem wok_only_enter (b : Nat) (fl : String) (d : Dir) : WOk b { trace := [Eve
 theorem executeFlow_ok (f : Flow) (o : Oracle) (d : Dir) (fuel : Nat) (sf : Option String)
     (hv : validateDirection d (f.dir d) = .ok ())
     (hs : sf = none ∨ noCycleAnywhere (f.dir d) = true)
-    (hf : dfsFuel (f.dir d) + 1 ≤ fuel) :
+    (hf : depthOf (f.dir d) ≤ fuel) :
     WOk (dirBound (f.dir d)) (executeFlow f o d fuel sf) := by
   unfold executeFlow
   simp only []
@@ -111,7 +111,7 @@ theorem bound_eq (fls : List Flow) : bound fls = sumDir .req fls + sumDir .res f
 
 /-- every flow of the list was validated and `fuel` covers its DFS fuel -/
 def Ready (fuel : Nat) (fls : List Flow) : Prop :=
-  ∀ f ∈ fls, Validated f ∧ ∀ d, dfsFuel (f.dir d) + 1 ≤ fuel
+  ∀ f ∈ fls, Validated f ∧ ∀ d, depthOf (f.dir d) ≤ fuel
 
 theorem Ready.tail {fuel : Nat} {f : Flow} {fls : List Flow} (h : Ready fuel (f :: fls)) : Ready fuel fls :=
   fun g hg => h g (List.mem_cons_of_mem _ hg)
@@ -424,7 +424,7 @@ theorem load_raw {c : Cfg} {fls : List Flow} (h : load c = .accept fls) (hb : f0
 /-! ### the walker's fuel covers every loaded direction -/
 
 theorem foldl_fuel_ge (l : List Flow) : ∀ (m : Nat),
-    m ≤ l.foldl (fun m f => max m (max (dfsFuel f.req) (dfsFuel f.res))) m := by
+    m ≤ l.foldl (fun m f => max m (max (depthOf f.req) (depthOf f.res))) m := by
   induction l with
   | nil => intro m; exact Nat.le_refl _
   | cons x xs ih =>
@@ -433,7 +433,7 @@ theorem foldl_fuel_ge (l : List Flow) : ∀ (m : Nat),
     exact Nat.le_trans (Nat.le_max_left _ _) (ih _)
 
 theorem foldl_fuel_mem (l : List Flow) : ∀ (m : Nat) (f : Flow), f ∈ l →
-    max (dfsFuel f.req) (dfsFuel f.res) ≤ l.foldl (fun m f => max m (max (dfsFuel f.req) (dfsFuel f.res))) m := by
+    max (depthOf f.req) (depthOf f.res) ≤ l.foldl (fun m f => max m (max (depthOf f.req) (depthOf f.res))) m := by
   induction l with
   | nil => intro m f h; simp at h
   | cons x xs ih =>
@@ -444,15 +444,15 @@ theorem foldl_fuel_mem (l : List Flow) : ∀ (m : Nat) (f : Flow), f ∈ l →
     · exact ih _ f h'
 
 theorem walkFuel_covers (fls : List Flow) (f : Flow) (hf : f ∈ fls) (d : Dir) :
-    dfsFuel (f.dir d) + 1 ≤ walkFuel fls := by
+    depthOf (f.dir d) ≤ walkFuel fls := by
   have := foldl_fuel_mem fls 0 f hf
   unfold walkFuel
   cases d with
   | req =>
-    have h1 : dfsFuel f.req ≤ max (dfsFuel f.req) (dfsFuel f.res) := Nat.le_max_left _ _
+    have h1 : depthOf f.req ≤ max (depthOf f.req) (depthOf f.res) := Nat.le_max_left _ _
     simp only [Flow.dir]; omega
   | res =>
-    have h1 : dfsFuel f.res ≤ max (dfsFuel f.req) (dfsFuel f.res) := Nat.le_max_right _ _
+    have h1 : depthOf f.res ≤ max (depthOf f.req) (depthOf f.res) := Nat.le_max_right _ _
     simp only [Flow.dir]; omega
 
 theorem load_ready {c : Cfg} {fls : List Flow} (h : load c = .accept fls) : Ready (walkFuel fls) fls :=
